@@ -24,7 +24,7 @@ CHECKS = {
     "C06": ("exploration", "exhaustive enumeration of an adversarial id universe (all ordered pairs) on the real SDK",
             "All concatenations of up to 3 (thorough: 4) tokens from the naming scheme's own vocabulary as partition ids; every ordered pair (P,Q): session P must fail on Q's genuine record; with/without region suffix, two service/product pairs, per-session / shared / no key cache / sessions handed out by the session cache; every record names its own partition's key id.", "6/C06"),
     "C07": ("exploration", "bounded-exhaustive mutation enumeration (every single-bit flip, truncation, field recombination, structural case) on the real SDK",
-            "Every single-bit flip and truncation of Data and wrapped key of 4 genuine records, all 4^5 field recombinations, structural cases (incl. the parent key id replaced by every prefix / suffix / one-character deletion of itself and by separator-free, separator-only and very long strings), loader failures, and every bit flip / truncation / structural corruption of every metastore row, through Decrypt and Load with cold, warm and stale caches, over a plain and a region-suffixing metastore; result must be the original payload or an error, never a panic.", "6/C07"),
+            "Every single-bit flip and truncation of Data and wrapped key of 4 genuine records, all 4^5 field recombinations, structural cases (incl. the parent key id replaced by every prefix / suffix / one-character deletion of itself and by separator-free, separator-only and very long strings), loader failures, and every bit flip / truncation / structural corruption of every metastore row, through Decrypt and Load with cold, warm and stale caches, over a plain and a region-suffixing metastore; plus the key rows corrupted in their stored form (SQL key_record JSON text, DynamoDB v1/v2 item attributes) so that the real metastore decoders are on the path; result must be the original payload or an error, never a panic.", "6/C07"),
     "C08": ("model_checking", "stateless schedule exploration of the real code under a controlled scheduler (preemption-bounded DFS + happens-before state caching)",
             "Every interleaving, up to the stated preemption bound, of 2-3 goroutines decrypting/encrypting/opening sessions against one factory "
             "with capacity-1/2 shared key caches of each eviction policy is executed on the real SDK; oracle: every operation succeeds with the right bytes, "
